@@ -13,6 +13,7 @@
                                                           r0 + r <= R /\ c0 + c <= C
      Idx   n i            col(i) / operator()(i)          i < n
      Pop   sz             std::deque::pop_back            0 < sz
+     Div   d              integer division / modulo by d  0 < d
      Comma slots given    comma initialiser               slots = given
      Guard b              a validation the code performs itself; [false] = the
                           code throws (reported to the caller, not a failure)
@@ -35,6 +36,7 @@ Inductive op : Type :=
 | Blk (R C r0 c0 r c : nat)
 | Idx (n i : nat)
 | Pop (sz : nat)
+| Div (d : nat)
 | Comma (slots given : nat)
 | Guard (b : bool)
 | Free.
@@ -51,6 +53,7 @@ Definition ok (o : op) : bool :=
   | Blk R C r0 c0 r c => (r0 + r <=? R) && (c0 + c <=? C)
   | Idx n i => i <? n
   | Pop sz => 0 <? sz
+  | Div d => 0 <? d
   | Comma s g => s =? g
   | Guard _ => true
   | Free => true
@@ -91,6 +94,29 @@ Definition g_mean (e : string) (l : layout) (comps i : nat) : prog :=
   [It e "mean(i)" (Idx comps i)].
 Definition g_cov (e : string) (l : layout) (comps i : nat) : prog :=
   [It e "covariance(i)" (Blk (lcov l) (lcov l * comps) 0 (lcov l * i) (lcov l) (lcov l))].
+
+(* ------------------------------------------------------------------ *)
+(* GaussianMixture::augmentWithNoise (noise covariance qr x qc; returns false, touching nothing, when it
+   is not square) and the ParticleSet override, which also grows state_ *)
+Definition e_aug := "ParticleSet::augmentWithNoise".
+Definition aug_ret (qr qc : nat) : bool := qr =? qc.
+Definition p_augment_gm (e : string) (l : layout) (comps qr qc : nat) : prog :=
+  let dold := lcov l in let dc := lcov l + qr in let dim := ldim l + qr in
+  when (aug_ret qr qc)
+  ([ It e "mean_.bottomRows(added)" (Blk dim comps (dim - qr) 0 qr comps) ] ++
+   for_ (comps - 1) (fun i =>
+     let ii := comps - 1 - i in
+     [ It e "new_block" (Blk dc (dc * comps) 0 (ii * dc) dold dold);
+       It e "old_block" (Blk dc (dc * comps) 0 (ii * dold) dold dold) ] ++
+     for_ dold (fun j => [ It e "col(j_index)" (Idx dold (dold - 1 - j)) ])) ++
+   for_ comps (fun i =>
+     [ It e "covariance_.block(noise)" (Blk dc (dc * comps) dold (i * dc + dold) qr qr);
+       It e "block=noise_covariance_matrix" (Same qr qr qr qc);
+       It e "covariance_.block(zero)" (Blk dc (dc * comps) 0 (i * dc + dold) dold qr) ])).
+Definition p_augment (l : layout) (comps qr qc : nat) : prog :=
+  p_augment_gm e_aug l comps qr qc ++
+  when (aug_ret qr qc) [ It e_aug "state_.bottomRows(added)" (Blk (ldim l + qr) comps (ldim l) 0 qr comps) ].
+Definition aug_layout (l : layout) (qr qc : nat) : layout := if aug_ret qr qc then augment l qr else l.
 
 (* ------------------------------------------------------------------ *)
 (* WhiteNoiseAcceleration (Dim = OneD/TwoD/ThreeD  <->  D = 1/2/3, d = 2 D) *)
@@ -172,15 +198,27 @@ Definition p_sim_buffer (e : string) (T cur : nat) : prog :=
   when (sim_buffer_ret T cur)
        [ It e "log:target_.col(t-1)" (Idx T cur); It e "target_.col(t-1)" (Idx T cur) ].
 
-(* [calls] consecutive calls starting from cursor 0: cursor after k calls is min k T *)
-Definition sim_cursor (T k : nat) : nat := Nat.min k T.
-Definition p_sim_calls (e : string) (T calls : nat) : prog :=
-  for_ calls (fun k => p_sim_buffer e T (sim_cursor T k)).
-Definition sim_returns (T calls : nat) : list bool :=
-  map (fun k => sim_buffer_ret T (sim_cursor T k)) (seq 0 calls).
+(* the cursor current_simulation_time_, transcribed: bufferData leaves it alone when the trajectory is
+   exhausted and increments it otherwise; setProperty("reset") sets it to 0.  [f cur] is the program of
+   one call made with the cursor at [cur] (bufferData itself, or SimulatedLinearSensor::freeze). *)
+Inductive sop := SBuf | SReset.
+Definition sim_next (T cur : nat) : nat := if cur <? T then S cur else cur.
+Fixpoint sim_run (f : nat -> prog) (T cur : nat) (ops : list sop) : prog :=
+  match ops with
+  | [] => []
+  | SBuf :: r => f cur ++ sim_run f T (sim_next T cur) r
+  | SReset :: r => sim_run f T 0 r
+  end.
+Fixpoint sim_rets (T cur : nat) (ops : list sop) : list bool :=
+  match ops with
+  | [] => []
+  | SBuf :: r => sim_buffer_ret T cur :: sim_rets T (sim_next T cur) r
+  | SReset :: r => sim_rets T 0 r
+  end.
+Definition sim_returns (T calls : nat) : list bool := sim_rets T 0 (repeat SBuf calls).
 
-Definition case_simstate (D T ir calls : nat) : prog :=
-  p_wna_ctor D ++ p_sim_ctor D T ir ++ p_sim_calls e_sim_buffer T calls.
+Definition case_simstate (D T ir : nat) (ops : list sop) : prog :=
+  p_wna_ctor D ++ p_sim_ctor D T ir ++ sim_run (p_sim_buffer e_sim_buffer T) T 0 ops.
 
 (* ------------------------------------------------------------------ *)
 (* LinearModel / SimulatedLinearSensor                                  *)
@@ -223,7 +261,7 @@ Definition p_lmm_innov (e : string) (pr yr yc : nat) : prog :=
 Definition case_linsensor (D T ir sn : nat) (ms : list nat) (rr rc calls num sr sc : nat) : prog :=
   let m := List.length ms in
   p_wna_ctor D ++ p_sim_ctor D T ir ++ p_sls_ctor sn ms rr rc ++
-  for_ calls (fun k => p_sls_freeze T (sim_cursor T k) sn m ir) ++
+  sim_run (fun cur => p_sls_freeze T cur sn m ir) T 0 (repeat SBuf calls) ++
   p_lm_noise e_lm_noise m num ++ p_lmm_pred m sn sr sc ++
   (* innovation of the predicted measurement against the frozen m x 1 measurement *)
   p_lmm_innov e_lmm_innov m m 1.
@@ -336,6 +374,10 @@ Definition p_sigma (e : string) (l : layout) (comps : nat) : prog :=
          It e "perturbations.bottomRows(noise)" (Blk dc base (dc - noise l) 0 (noise l) base) ] ++ g_mean e l comps i ++
        [ It e "mean(i).bottomRows(noise)" (Blk dim 1 (dim - noise l) 0 (noise l) 1);
          It e "sp.noise=" (Same (noise l) base (noise l) base) ])).
+
+(* UTWeight(dof) / unscented_weights: weight_mean(j), weight_covariance(j) for j < 2 dof + 1 on vectors of that size *)
+Definition p_utweight (e : string) (dof : nat) : prog :=
+  for_ (2 * dof + 1) (fun j => [ It e "weight_mean(j)" (Idx (2 * dof + 1) j); It e "weight_covariance(j)" (Idx (2 * dof + 1) j) ]).
 
 (* ------------------------------------------------------------------ *)
 (* unscented_transform(input, weight, function)                         *)
@@ -450,9 +492,12 @@ Definition p_kf_predict (d : nat) (lp : layout) (comps : nat) (lq : layout) (com
 Definition p_kf_correct (m n : nat) (lp : layout) (comps : nat) (lq : layout) (compsq yr yc : nat) : prog :=
   let dim := ldim lp in let dc := lcov lp in
   [ It e_kfc "H*pred.mean()" (Mul m n dim comps) ] ++ p_lmm_innov e_kfc m yr yc ++
+  [ It e_kfc "meas_covariances_.resize(components,H.rows())" Free ] ++
   for_ comps (fun i =>
     g_cov e_kfc lp comps i ++
     [ It e_kfc "H*P" (Mul m n dc dc); It e_kfc "(H*P)*H^T" (Mul m dc n m); It e_kfc "+R" (Same m m m m);
+      It e_kfc "meas_covariances_.covariance(i)" (Blk m (m * comps) 0 (m * i) m m);
+      It e_kfc "meas_covariances_.covariance(i)=" (Same m m m m);
       It e_kfc "P*H^T" (Mul dc dc n m); It e_kfc "(P*H^T)*Py^-1" (Mul dc m m m) ] ++
     g_mean e_kfc lq compsq i ++ g_mean e_kfc lp comps i ++
     [ It e_kfc "innovations_.col(i)" (Idx comps i); It e_kfc "K*innovation" (Mul dc m m 1);
@@ -486,16 +531,18 @@ Definition p_ukf_predict (additive : bool) (lp : layout) (comps w q : nat) (ls :
     relabel e_ukfp (p_ut 2 lp comps w true (ldim lp) ((2 * lcov lp + 1) * comps) ls q q)
   else
     let la := augment lp q in
+    p_augment_gm e_ukfp lp comps q q ++
     relabel e_ukfp (p_ut 1 la comps w true (ldim ls) ((2 * lcov la + 1) * comps) ls 0 0).
 
 (* correctStep: lp predicted state, lm measurement description, R is r x r, the model's
    predictedMeasure returns (valid, mr x (cols of its argument)); innovation returns ir x comps *)
-Definition p_ukf_correct (additive : bool) (lp : layout) (comps w r : nat) (valid : bool) (lm : layout) (ir : nat)
+Definition p_ukf_correct (additive online : bool) (lp : layout) (comps w r : nat) (valid : bool) (lm : layout) (ir : nat)
                          (lq : layout) (compsq : nat) : prog :=
   let li := if additive then lp else augment lp r in
   let base := 2 * lcov li + 1 in
   let msz := ldim lm in let mdc := lcov lm in
   let xr := lcov li - noise li in
+  when (negb additive) (p_augment_gm e_ukfc lp comps r r ++ when online (p_utweight e_ukfc w)) ++
   relabel e_ukfc (p_ut (if additive then 4 else 3) li comps w valid msz (base * comps) lm r r) ++
   when valid
   (for_ comps (fun i =>
@@ -521,9 +568,13 @@ Definition e_sukfl := "SUKFCorrection::getLikelihood".
    sub-measurement size (msz mod sub = 0 is checked by the code; sub > 0), R is r x r and not reduced;
    innovation returns ir x comps *)
 Definition sukf_runs (msz sub : nat) : bool := pos sub && (msz mod sub =? 0).
-Definition p_sukf (lp : layout) (comps w msz sub r ir : nat) (lq : layout) (compsq : nat) : prog :=
+(* [reduced]: use_reduced_noise_covariance_matrix — getNoiseCovarianceMatrix(j) returns the whole r x r matrix
+   instead of R.block(sub*j, sub*j, sub, sub); rj is the size of what it returns *)
+Definition p_sukf (reduced : bool) (lp : layout) (comps w msz sub r ir : nat) (lq : layout) (compsq : nat) : prog :=
   let dim := ldim lp in let dc := lcov lp in let base := 2 * dc + 1 in
   let ss := 2 * dim + 1 in let nw := 2 * w + 1 in
+  let rj := if reduced then r else sub in
+  [ It e_sukf "meas_size % measurement_sub_size_" (Div sub) ] ++
   when (sukf_runs msz sub)
   (p_sigma e_sukf lp comps ++
    for_ comps (fun i =>
@@ -535,14 +586,14 @@ Definition p_sukf (lp : layout) (comps w msz sub r ir : nat) (lq : layout) (comp
        It e_sukf "Y.colwise()-=pred_mean.col(i)" (Same msz 1 msz 1);
        It e_sukf "Y*=sqrt_ut_weight" (Mul msz ss nw nw) ] ++
      for_ (msz / sub) (fun j =>
-       [ It e_sukf "Y.middleRows(sub*j,sub)" (Blk msz ss (sub * j) 0 sub ss);
-         It e_sukf "R.block(sub*j,sub*j,sub,sub)" (Blk r r (sub * j) (sub * j) sub sub);
-         It e_sukf "Y_j^T*R_j^-1" (Mul ss sub sub sub);
-         It e_sukf "tmp=" (Same ss sub ss sub);
-         It e_sukf "tmp*Y_j" (Mul ss sub sub ss); It e_sukf "C_inv+=" (Same ss ss ss ss);
+       [ It e_sukf "Y.middleRows(sub*j,sub)" (Blk msz ss (sub * j) 0 sub ss) ] ++
+       when (negb reduced) [ It e_sukf "R.block(sub*j,sub*j,sub,sub)" (Blk r r (sub * j) (sub * j) sub sub) ] ++
+       [ It e_sukf "Y_j^T*R_j^-1" (Mul ss sub rj rj);
+         It e_sukf "tmp.noalias()=" Free;
+         It e_sukf "tmp*Y_j" (Mul ss rj sub ss); It e_sukf "C_inv+=" (Same ss ss ss ss);
          It e_sukf "innovations_.col(i)" (Idx comps i);
          It e_sukf "innovations_.col(i).middleRows(sub*j,sub)" (Blk ir 1 (sub * j) 0 sub 1);
-         It e_sukf "tmp*innovation_j" (Mul ss sub sub 1) ]) ++
+         It e_sukf "tmp*innovation_j" (Mul ss rj sub 1) ]) ++
      [ It e_sukf "X=input_sigma_points.middleCols" (Blk dim (base * comps) 0 (ss * i) dim ss);
        It e_sukf "X.topRows(lin)" (Blk dim ss 0 0 (lin lp) ss) ] ++ g_mean e_sukf lp comps i ++
      [ It e_sukf "pred.mean(i).topRows(lin)" (Blk dim 1 0 0 (lin lp) 1);
@@ -583,12 +634,22 @@ Definition p_resample_prior (lc : layout) (n k np : nat) : prog :=
       It e_resp "tmp.state(j)=" (Same (ldim lt) 1 (ldim lc) 1);
       It e_resp "tmp.mean(j)=" (Same (ldim lt) 1 (ldim lc) 1) ] ++
     g_cov e_resp lt nres j ++ g_cov e_resp lc n (k + j) ++
-    [ It e_resp "tmp.covariance(j)=" (Same (lcov lt) (lcov lt) (lcov lc) (lcov lc)) ]) ++
+    [ It e_resp "tmp.covariance(j)=" (Same (lcov lt) (lcov lt) (lcov lc) (lcov lc));
+      It e_resp "tmp.weight(j)" (Idx nres j); It e_resp "cor.weight(i)" (Idx n (k + j)) ]) ++
+  [ It e_resp "log_sum_exp:maxCoeff" (Idx nres 0) ] ++
   p_resample e_resp lt nres lt nres nres ++
   (* parents mapped back through the sort permutation: sorted_indices[res_parents_right(j) + k] *)
   for_ nres (fun j => [ It e_resp "res_parents_right(j)" (Idx nres j);
                         It e_resp "sorted_indices[parent+k]" (Idx n (nres - 1 + k)) ]) ++
-  [ It e_resp "res_parents.head(k)" (Blk np 1 0 0 k 1) ].
+  (* res_particles = left + right: ParticleSet::operator+= (conservativeResize, then the right part) *)
+  [ It e_resp "+=:state_.rightCols" (Blk (ldim lt) (k + nres) 0 (k + nres - nres) (ldim lt) nres);
+    It e_resp "+=:state_.rightCols=" (Same (ldim lt) nres (ldim lt) nres);
+    It e_resp "+=:mean_.rightCols" (Blk (ldim lt) (k + nres) 0 (k + nres - nres) (ldim lt) nres);
+    It e_resp "+=:mean_.rightCols=" (Same (ldim lt) nres (ldim lt) nres);
+    It e_resp "+=:covariance_.rightCols" (Blk (lcov lt) (lcov lt * (k + nres)) 0 (lcov lt * (k + nres) - lcov lt * nres) (lcov lt) (lcov lt * nres));
+    It e_resp "+=:covariance_.rightCols=" (Same (lcov lt) (lcov lt * nres) (lcov lt) (lcov lt * nres));
+    It e_resp "+=:weight_.tail" (Blk (k + nres) 1 (k + nres - nres) 0 nres 1);
+    It e_resp "res_parents.head(k)" (Blk np 1 0 0 k 1) ].
 (* descriptor and storage of the merged result: components, state cols, mean cols, weight rows, covariance cols *)
 Definition resample_prior_out (lc : layout) (n k : nat) : list nat :=
   let lt := Lay (lin lc) (circ lc) (quat lc) 0 in [n; n; n; n; lcov lt * n].
@@ -601,7 +662,7 @@ Definition e_uvr := "utils::multivariate_gaussian_log_density_UVR".
 (* input r x c, mean k, U ur x uc, V vr x vc, R bs x rc  (block_size = R.rows()) *)
 Definition p_uvr (e : string) (r c k ur uc vr vc bs rc : nat) : prog :=
   let nb := r / bs in
-  [ It e "input.colwise()-mean" (Same r 1 k 1) ] ++
+  [ It e "input_size / block_size" (Div bs); It e "input.colwise()-mean" (Same r 1 k 1) ] ++
   (if rc =? bs then
      [ It e "R.inverse()" (Same bs bs rc rc) ] ++
      for_ nb (fun i => [ It e "inv_R.block" (Blk bs r 0 (bs * i) bs bs) ])
@@ -626,12 +687,14 @@ Definition p_uvr (e : string) (r c k ur uc vr vc bs rc : nat) : prog :=
   (if rc =? bs then [] else for_ nb (fun i => [ It e "R.block.determinant" (Blk bs rc 0 (bs * i) bs bs) ])).
 
 (* SUKFCorrection::getLikelihood after a successful step *)
-Definition p_sukf_lik (lp : layout) (comps msz sub r ir : nat) : prog :=
+Definition p_sukf_lik (reduced : bool) (lp : layout) (comps msz sub r ir : nat) : prog :=
   let ss := 2 * lcov lp + 1 in
+  let rj := if reduced then r else sub in
+  [ It e_sukfl "innovations_.rows() / measurement_sub_size_" (Div sub) ] ++
   for_ (ir / sub) (fun i =>
-    [ It e_sukfl "R.middleCols(i*sub,sub)" (Blk sub ir 0 (i * sub) sub sub);
-      It e_sukfl "R.block(sub*i,sub*i,sub,sub)" (Blk r r (sub * i) (sub * i) sub sub);
-      It e_sukfl "R.middleCols=" (Same sub sub sub sub) ]) ++
+    [ It e_sukfl "R.middleCols(i*sub,sub)" (Blk sub ir 0 (i * sub) sub sub) ] ++
+    when (negb reduced) [ It e_sukfl "R.block(sub*i,sub*i,sub,sub)" (Blk r r (sub * i) (sub * i) sub sub) ] ++
+    [ It e_sukfl "R.middleCols=" (Same sub sub rj rj) ]) ++
   for_ comps (fun i =>
     [ It e_sukfl "propagated.middleCols" (Blk msz ((2 * lcov lp + 1) * comps) 0 (ss * i) msz ss);
       It e_sukfl "innovations_.col(i)" (Idx comps i) ] ++
@@ -719,7 +782,7 @@ Definition ut_prop_shape (variant : nat) (li : layout) (comps pr pc : nat) (lo :
 Definition case_ut (variant : nat) (li : layout) (comps w : nat) (valid : bool) (pr pc : nat) (lo : layout) (qr qc : nat) : prog :=
   let valid' := match variant with 1 | 2 => true | _ => valid end in
   let '(pr', pc') := ut_prop_shape variant li comps pr pc lo in
-  p_ut variant li comps w valid' pr' pc' lo qr qc.
+  p_utweight "sigma_point::UTWeight::UTWeight" w ++ p_ut variant li comps w valid' pr' pc' lo qr qc.
 
 Definition case_kfp (d : nat) (lp : layout) (comps : nat) (lq : layout) (compsq : nat) : prog :=
   p_kf_predict d lp comps lq compsq.
@@ -729,26 +792,34 @@ Definition case_kfc (m n : nat) (lp : layout) (comps : nat) (lq : layout) (comps
   p_kf_correct m n lp comps lq compsq yr yc ++ p_kf_lik m comps.
 
 (* the UTWeight is built by the step's constructor from the model's declared input description *)
+Definition e_ukfp_ctor := "UKFPrediction::UKFPrediction".
+Definition e_ukfc_ctor := "UKFCorrection::UKFCorrection".
+Definition e_sukf_ctor := "SUKFCorrection::SUKFCorrection".
 Definition case_ukfp (additive : bool) (lp : layout) (comps q : nat) (ls : layout) : prog :=
-  p_ukf_predict additive lp comps (if additive then lcov ls else lcov ls + q) q ls.
+  let w := if additive then lcov ls else lcov ls + q in
+  p_utweight e_ukfp_ctor w ++ p_ukf_predict additive lp comps w q ls.
 Definition ukfp_out (comps : nat) (ls : layout) : list nat := [comps; ldim ls; lcov ls].
 
 (* [again]: afterwards a second correction whose predictedMeasure fails (the sigma points are drawn, the
    transform returns early, corr_state = pred_state) and getLikelihood(): innovations_ was emptied at the
    start of the step (commit 201e1b4), so nothing is evaluated against the default 1x1 predicted_meas_ *)
 Definition case_ukfc (additive : bool) (lp : layout) (comps r : nat) (valid : bool) (lm : layout) (ir : nat)
-                     (lq : layout) (compsq : nat) (again : bool) : prog :=
+                     (lq : layout) (compsq : nat) (again online : bool) : prog :=
   let w := if additive then lcov lp else lcov lp + r in
-  p_ukf_correct additive lp comps w r valid lm ir lq compsq ++
+  p_utweight e_ukfc_ctor w ++
+  p_ukf_correct additive online lp comps w r valid lm ir lq compsq ++
   when valid (p_ukf_lik comps ir (lcov lm)) ++
-  when again (p_ukf_correct additive lp comps w r false lm ir lq compsq).
+  when again (p_ukf_correct additive online lp comps w r false lm ir lq compsq).
 
-Definition case_sukf (lp : layout) (comps msz sub r ir : nat) (lq : layout) (compsq : nat) (again : bool) : prog :=
-  p_sukf lp comps (lcov lp) msz sub r ir lq compsq ++
-  when (sukf_runs msz sub) (p_sukf_lik lp comps msz sub r ir) ++
-  when (again && sukf_runs msz sub) (p_sigma e_sukf lp comps).
+Definition case_sukf (reduced : bool) (lp : layout) (comps msz sub r ir : nat) (lq : layout) (compsq : nat) (again : bool) : prog :=
+  p_utweight e_sukf_ctor (lcov lp) ++
+  p_sukf reduced lp comps (lcov lp) msz sub r ir lq compsq ++
+  when (sukf_runs msz sub) (p_sukf_lik reduced lp comps msz sub r ir) ++
+  when again ([ It e_sukf "meas_size % measurement_sub_size_" (Div sub) ] ++ when (sukf_runs msz sub) (p_sigma e_sukf lp comps)).
 
-Definition case_resample (lc : layout) (n : nat) (lr : layout) (nr np : nat) : prog := p_resample e_res lc n lr nr np.
+(* Resampling::neff(weights) has no precondition *)
+Definition case_resample (lc : layout) (n : nat) (lr : layout) (nr np : nat) : prog :=
+  [ It "Resampling::neff" "exp(w).square().sum()" Free ] ++ p_resample e_res lc n lr nr np.
 Definition case_resprior (lc : layout) (n k np : nat) : prog := p_resample_prior lc n k np.
 Definition case_density (r c k a b : nat) : prog := p_density e_dens r c k a b.
 Definition case_uvr (r c k ur uc vr vc bs rc : nat) : prog := p_uvr e_uvr r c k ur uc vr vc bs rc.
@@ -758,8 +829,8 @@ Definition case_uvr (r c k ur uc vr vc bs rc : nat) : prog := p_uvr e_uvr r c k 
 
 Definition b2n (b : bool) : nat := if b then 1 else 0.
 Definition obs_wna (D num cc : nat) : list nat := [wna_d D; num; cc].
-Definition obs_simstate (T ir calls : nat) : list nat :=
-  flat_map (fun r : bool => if r then [1; ir; 1] else [0]) (sim_returns T calls).
+Definition obs_simstate (T ir : nat) (ops : list sop) : list nat :=
+  flat_map (fun r : bool => if r then [1; ir; 1] else [0]) (sim_rets T 0 ops).
 Definition obs_linsensor (T m calls num sc : nat) : list nat :=
   flat_map (fun r : bool => if r then [1; m; 1] else [0]) (sim_returns T calls) ++ [m; num; m; sc; m; sc].
 Fixpoint obs_history (ssz : nat) (s : hstate) (ops : list hop) : list nat :=
@@ -784,27 +855,7 @@ Definition obs_resample (lr : layout) (nr : nat) : list nat := [nr; nr; nr; nr; 
 Definition obs_extract (calls stat avg el ec pr : nat) : list nat :=
   flat_map (fun _ => [1; match avg with 0 => ext_stat_rows stat el ec pr | _ => el + ec end]) (seq 0 calls).
 
-(* ------------------------------------------------------------------ *)
-(* GaussianMixture::augmentWithNoise / ParticleSet::augmentWithNoise (noise covariance qr x qc) *)
-
-Definition e_aug := "ParticleSet::augmentWithNoise".
-Definition aug_ret (qr qc : nat) : bool := qr =? qc.
-Definition p_augment (l : layout) (comps qr qc : nat) : prog :=
-  let dold := lcov l in let dc := lcov l + qr in let dim := ldim l + qr in
-  when (aug_ret qr qc)
-  ([ It e_aug "mean_.bottomRows(added)" (Blk dim comps (dim - qr) 0 qr comps) ] ++
-   for_ (comps - 1) (fun i =>
-     let ii := comps - 1 - i in
-     [ It e_aug "new_block" (Blk dc (dc * comps) 0 (ii * dc) dold dold);
-       It e_aug "old_block" (Blk dc (dc * comps) 0 (ii * dold) dold dold) ] ++
-     for_ dold (fun j => [ It e_aug "col(j_index)" (Idx dold (dold - 1 - j)) ])) ++
-   for_ comps (fun i =>
-     [ It e_aug "covariance_.block(noise)" (Blk dc (dc * comps) dold (i * dc + dold) qr qr);
-       It e_aug "block=noise_covariance_matrix" (Same qr qr qr qc);
-       It e_aug "covariance_.block(zero)" (Blk dc (dc * comps) 0 (i * dc + dold) dold qr) ]) ++
-   [ It e_aug "state_.bottomRows(added)" (Blk dim comps (dim - qr) 0 qr comps) ]).
 (* the particle set after the call, then its sigma points *)
-Definition aug_layout (l : layout) (qr qc : nat) : layout := if aug_ret qr qc then augment l qr else l.
 Definition case_psaug (l : layout) (comps qr qc qr2 qc2 : nat) : prog :=
   let l1 := aug_layout l qr qc in let l2 := aug_layout l1 qr2 qc2 in
   p_augment l comps qr qc ++ p_augment l1 comps qr2 qc2 ++ p_sigma e_sp l2 comps.
